@@ -364,27 +364,25 @@ def c02d(ctx):
     # tile_sets start/step table over the two flags
     ts = ctx.fn(T + 'tile_sets')
 
-    def ev(st):
-        if isinstance(st, ast.Assign) and unparse(st.targets[0]) in ('start', 'step') and isinstance(st.value, ast.Constant):
-            return '%s=%s' % (unparse(st.targets[0]), st.value.value)
-        return None
-    body = [s for s in ts.node.body if not isinstance(s, (ast.For, ast.Return))]
-    tab = ctx.rows(table(body, lambda n: 'x', event_of=ev))
-    f1 = [a for a in tab.atoms if '_skip_first_level' in a]
-    f2 = [a for a in tab.atoms if '_skip_odd_level' in a]
-    ok = len(f1) == 1 and len(f2) == 1
-    bad = []
-    if ok:
-        for asg, out, events in tab.assignments():
-            vals = {'start': 0, 'step': 1}
-            for e in events:
-                k, v = e.split('=')
-                vals[k] = int(v)
-            first, odd = asg[f1[0]], asg[f2[0]]
+    # decided by partial evaluation: the function is specialised for the four values of the two flags and the range(...) that is
+    # left is read (an if-nest, a conditional expression and a table indexed by the flags all leave the same constants)
+    bad, ok = [], True
+    for first in (False, True):
+        for odd in (False, True):
+            sp = ctx.repo.specialise(ts, {'self._skip_first_level': first, 'self._skip_odd_level': odd})
+            rngs = [x for x in sp.walk() if is_call(x, 'range')]
+            if len(rngs) != 1 or not 1 <= len(rngs[0].args) <= 3:
+                ok = False
+                continue
+            cs = Canon(sp)
+            args = [const_value(cs.expr(a), "?") for a in rngs[0].args]
+            start = 0 if len(args) == 1 else args[0]
+            step = 1 if len(args) < 3 else args[2]
             want_start = (1 if first else 0) * (2 if odd else 1)
             want_step = 2 if odd else 1
-            if (vals['start'], vals['step']) != (want_start, want_step):
-                bad.append((first, odd, vals))
+            if (start, step) != (want_start, want_step) or type(start) is not int or type(step) is not int:
+                bad.append((first, odd, {'start': unparse(rngs[0].args[0]) if len(args) > 1 else 0,
+                                         'step': unparse(rngs[0].args[2]) if len(args) > 2 else 1}))
     ctx.check(ok and not bad, 'TileServiceGrid.tile_sets:start-step', 'advertised tile sets start at (first-level skip)*(odd factor) and step by the odd factor, '
               'the image of public levels 0,1,2,... under internal_tile_coord', ts,
               fail='tile_sets advertises levels that internal_tile_coord does not map to: %s' % bad[:2])
@@ -401,7 +399,7 @@ def c02d(ctx):
         if not is_call(rng, 'range') or len(rng.args) != 3:
             continue
         a0, a1, a2 = [unparse(x) for x in rng.args]
-        if a0 != 'start' or a2 != 'step' or cft.text(rng.args[1], at=ts.cfg.node_for(rng)) not in ('self.grid.levels',):
+        if cft.text(rng.args[1], at=ts.cfg.node_for(rng)) not in ('self.grid.levels',):
             continue
         order, level = [unparse(e) for e in tgt.elts]
         if elt is None:
